@@ -64,7 +64,7 @@ pub fn check(tier: Tier) -> Check {
         also_rel: false,
         property: "C05",
         level: "model_checking",
-        rule: "all event sequences (operation starts, conformant acknowledgements in every order with distinguishing content, delayed / spurious polls - and, in two parts, the cancellation of another operation - as deviations) up to the stated depth and deviation bound; plus 9 deterministic runs with 600 operations of all kinds outstanding at once (packet identifiers spanning several multiples of 256 and the wrap) acknowledged in three permutations; plus every pair of operation kinds outstanding with packet identifiers that differ in exactly one bit (bit 0..15, two base values), acknowledged in both orders; non-trivial = an execution in which at least one acknowledgement completed an operation".into(),
+        rule: "all event sequences (operation starts, conformant acknowledgements in every order with distinguishing content, delayed / spurious polls - and, in two parts, the cancellation of another operation - as deviations) up to the stated depth and deviation bound; plus 9 deterministic runs with 600 operations of all kinds outstanding at once (packet identifiers spanning several multiples of 256 and the wrap) acknowledged in three permutations; plus every pair of operation kinds outstanding with packet identifiers that differ in exactly one bit (bit 0..15, two base values), acknowledged in both orders; parts with the success reason 0x10, with acknowledgements of more than 127 property bytes, and with requests of unusual content (value flavour); non-trivial = an execution in which at least one acknowledgement completed an operation".into(),
         assumptions: vec![
             "broker events are conformant (acknowledgements only for outstanding identifiers)".into(),
             "futures-channel is in the trusted base".into(),
